@@ -6,9 +6,13 @@
 // without the `verif` tag.
 package commit
 
-import "math"
+import (
+	"io"
+	"math"
+)
 
 //@ inline binary.
+//@ maypanic commit.readChunksFrom a length token that is not a written length (corruption, not truncation) can exhaust memory in make
 //@ unroll commit.(*Buffer).writeOffset#0 5
 
 // vMkBuffer builds a buffer in an arbitrary state from plain inputs.
@@ -250,4 +254,51 @@ func vLemmaCommitClone(idv uint64, chunk Chunk, b0 *Buffer) {
 	} else {
 		vAssert("empty-skipped", len(cl.Updates) == 0)
 	}
+}
+
+// ---------------------------------------------------------------------------------------------
+// Truncated streams (C13), over the sticky-failure token stream model: Commit.ReadFrom returns nil only if no read
+// failed (so a truncated commit is never reported complete) and returns the stream's error otherwise.
+//
+//@ lemma props=C13
+func vLemmaCommitReadFrom(src io.Reader) {
+	vAssume(vReadErr != nil)
+	vReadFailed = false
+	var c Commit
+	_, err := c.ReadFrom(src)
+	vAssert("nil-only-if-every-read-succeeded", err != nil || !vReadFailed)
+	vAssert("failure-is-reported", !vReadFailed || err != nil)
+}
+
+// Log.Range hands a commit to the callback only if it was read completely, stops at the first error and returns it
+// unless it is a clean end of stream.
+//
+//@ loop target=commit.(*Log).Range index=0 props=C13
+func vLoopLogRange(l *Log) {
+	vInvariant(!vReadFailed && (!vStopOnFirst || vDelivered == 0))
+	vBody()
+}
+
+var vDelivered int    // ghost: commits handed to the callback
+var vStopOnFirst bool // ghost: the callback of the lemma returns an error
+
+//@ lemma props=C13
+func vLemmaLogRange(l *Log, cbErr error) {
+	vAssume(l != nil && vReadErr != nil && io.EOF != nil)
+	vReadFailed = false
+	vDelivered = 0
+	vStopOnFirst = cbErr != nil
+	err := l.Range(func(c Commit) error {
+		vAssert("only-complete-commits-are-delivered", !vReadFailed)
+		vDelivered++
+		return cbErr
+	})
+	vAssert("nil-only-at-clean-end-of-stream", err != nil || (vReadFailed && vReadErr == io.EOF))
+	vAssert("callback-error-stops-and-is-returned", cbErr == nil || vDelivered <= 1)
+}
+
+//@ loop target=commit.readChunksFrom index=0 props=C13,C05
+func vLoopReadChunks(v []header, i int, size uint64) {
+	vInvariant(0 <= i && uint64(len(v)) == size && !vReadFailed)
+	vBody()
 }
